@@ -541,6 +541,37 @@ enum Part {
 }
 
 pub fn search_strategy() -> impl Strategy<Value = Case> {
+    prop_oneof![
+        6 => structured_search_strategy(),
+        1 => free_text_search_strategy(),
+    ]
+}
+
+/// Haystack = arbitrary (multi-byte rich) text; needle = empty, a substring of it by character
+/// positions, or its last / first character; replacement short, possibly multi-byte.
+fn free_text_search_strategy() -> impl Strategy<Value = Case> {
+    let repl = prop_oneof![Just(String::new()), Just("-".to_string()), Just("<>".to_string()), Just("é".to_string())];
+    (text_string(), 0u8..6, any::<prop::sample::Index>(), any::<prop::sample::Index>(), repl).prop_map(
+        |(hay, kind, a, b, repl)| {
+            let chars: Vec<char> = hay.chars().collect();
+            let needle: String = match kind {
+                0 | 1 => String::new(),
+                2 => chars.last().map(|c| c.to_string()).unwrap_or_default(),
+                3 => chars.first().map(|c| c.to_string()).unwrap_or_default(),
+                _ => {
+                    let (mut i, mut j) = (a.index(chars.len() + 1), b.index(chars.len() + 1));
+                    if i > j {
+                        std::mem::swap(&mut i, &mut j);
+                    }
+                    chars[i..j].iter().collect()
+                }
+            };
+            Case::Search { hay, needle, repl }
+        },
+    )
+}
+
+fn structured_search_strategy() -> impl Strategy<Value = Case> {
     let part = prop_oneof![
         3 => any::<prop::sample::Index>().prop_map(Part::Prefix),
         2 => any::<prop::sample::Index>().prop_map(Part::Suffix),
